@@ -121,6 +121,28 @@ CLAIMED.update({
    technique=VT, ref="4 C18"),
 })
 
+CLAIMED.update({
+ "C05": dict(
+   text="Deductive proof on the real text of the notification handler on_commitment_revocation (watchtower-plugin/src/main.rs), WTClient::{has_appointment, add_appointment_receipt, add_pending_appointment, "
+        "add_invalid_appointment, flag_misbehaving_tower, remove_pending_appointment}, Retrier::run and net::http::add_appointment: for every decodable revocation and every tower value the http layer can return "
+        "(accept, connection error, subscription error, other API error, undecodable body, wrong or malformed signature) each registered tower that is not flagged misbehaving holds, when the handler returns, a record of "
+        "the appointment as accepted, pending or invalid; no (tower, locator) pair is ever in two of the three relations (invariant classified_once, preserved by the handler and by the retrier); nothing recorded before is "
+        "forgotten or re-classified by the handler (relations only grow); pending/invalid rows carry the full appointment body (foreign-key invariant); a repeated notification changes nothing; the retrier moves each pending "
+        "row to exactly accepted or invalid, or leaves it pending.",
+   note=PT + " Sequential projection: one hook/command/retrier step at a time - revocations arriving while a retry is running are interleavings and are NOT covered (C10-style). Crash points: every mutator is a single "
+        "SQLite transaction (assumed durable); a SIGKILL between the tower's acknowledgement and the insertion of the receipt is not modelled (no contract can express process death), CLN re-delivers unanswered hooks. "
+        "F8 (garbage reply lost the appointment) fixed by 7001c0e, F9 (duplicate notification panicked with the state mutex held) fixed by 6ad5841; both replayed on the real binary (replay_tests/plugin_driver.py).",
+   technique=VT, ref="4 C05"),
+ "C13": dict(
+   text="Narrowed to what single-call contracts decide: Retrier::run (terminates: decreases on the pending set; Ok implies nothing is pending; every request error is transient Unreachable i.e. back-off instead of a hot loop; "
+        "subscription / misbehaviour / abandonment errors are permanent exactly as RetryError::is_permanent says), send_to_retrier (fresh data goes to the retry manager unless the tower's retrier exists and is not running: "
+        "no data to an idle retrier), retry_tower (a manual retry is accepted exactly when the tower is known and its retrier is idle, or it has no retrier and is unreachable / subscription-error; it hands the retry manager "
+        "None resp. the stale pending set; otherwise nothing is sent), WTClient::set_tower_status (changes that tower's status only).",
+   note=PT + " NOT covered (outside single-call contracts): delivery within the configured delays (timing/liveness), `at no time two retry loops for one tower` and the RetryManager::manage_retry state machine "
+        "(tokio select loop, timers, spawned tasks, the backoff crate) - schedules and time. F10 (hot loop on garbage replies) fixed by 4b1ac74.",
+   technique=VT, ref="4 C13"),
+})
+
 NA = {
  "C03": "quantifies over process-death points, re-bootstrap of an async multi-component program and SQLite durability; no function contract expresses it (DESIGN.md 5)",
  "C10": "schedule/linearizability property; Kani has no threads and Verus only verifies concurrency for programs rewritten with its own lock/permission types; extraction rule E5 removes interleavings by construction",
